@@ -5,11 +5,12 @@ cd /verif
 for i in $(seq -w 1 20); do ./check C$i --no-bounded --update-baseline > /dev/null 2>&1; done
 tools/runall.sh > /tmp/runall_final.log 2>&1
 grep -E "^C[0-9]+ exit" /tmp/runall_final.log | cut -c1-160
-cd /verif/seeded; A=$(ls -d C0[1-6]-* | tr '\n' ' '); B=$(ls -d C0[7-9]-* C1[0-2]-* | tr '\n' ' '); C=$(ls -d C1[3-9]-* C20-* | tr '\n' ' '); cd /verif
-rm -f /tmp/reseed_[ABC].log
+cd /verif/seeded; A=$(ls -d C0[1-4]-* | tr '\n' ' '); B=$(ls -d C0[5-9]-* | tr '\n' ' '); C=$(ls -d C1[0-4]-* | tr '\n' ' '); D=$(ls -d C1[5-9]-* C20-* | tr '\n' ' '); cd /verif
+rm -f /tmp/reseed_[ABCD].log
 /verif/tools/reseed_all.sh /tmp/reseed_A.log $A > /dev/null 2>&1 &
 /verif/tools/reseed_all.sh /tmp/reseed_B.log $B > /dev/null 2>&1 &
 /verif/tools/reseed_all.sh /tmp/reseed_C.log $C > /dev/null 2>&1 &
+/verif/tools/reseed_all.sh /tmp/reseed_D.log $D > /dev/null 2>&1 &
 wait
-cat /tmp/reseed_[ABC].log | grep -v DONE | awk '{print $1, $4, $5, $6, $7, $8}' | grep -v "exit=1" 
+cat /tmp/reseed_[ABCD].log | grep -v DONE | awk '{print $1, $4, $5, $6, $7, $8}' | grep -v "exit=1" 
 .venv/bin/python tools/gen_seed_table.py
